@@ -66,9 +66,17 @@ type C05Case struct {
 	Buffered bool
 	Trunc    int // -1 = none; otherwise the stream is cut off after Trunc bytes
 	BadLen   int // -1 = none; otherwise a header declaring this length (<20) follows the messages, then 40 more bytes
+	// Overstate > 0: the LAST AVP of message Sizes[OverIdx] declares Overstate bytes more than it has
+	// (the message length itself is truthful). That message must be rejected, the following ones
+	// must still be read at their offsets, and no byte of an earlier message may show up in it.
+	Overstate int
+	OverIdx   int
 }
 
 func (c C05Case) Desc() string {
+	if c.Overstate > 0 {
+		return fmt.Sprintf("bodies=%v cuts=%v unit=%d bufio=%v last AVP of message %d overstates its length by %d", c.Sizes, c.Cuts, c.Unit, c.Buffered, c.OverIdx, c.Overstate)
+	}
 	return fmt.Sprintf("bodies=%v cuts=%v unit=%d bufio=%v trunc=%d badlen=%d", c.Sizes, c.Cuts, c.Unit, c.Buffered, c.Trunc, c.BadLen)
 }
 
@@ -99,6 +107,11 @@ func c05msg(body, seq int) []byte {
 func (c C05Case) stream() (full []byte, msgs [][]byte) {
 	for i, s := range c.Sizes {
 		m := c05msg(s, i)
+		if c.Overstate > 0 && i == c.OverIdx && s >= 8 {
+			m = append([]byte{}, m...)
+			l := (s) + c.Overstate // the single AVP spans the body: declared length = body size + overstatement
+			m[25], m[26], m[27] = byte(l>>16), byte(l>>8), byte(l)
+		}
 		msgs = append(msgs, m)
 		full = append(full, m...)
 	}
@@ -133,6 +146,16 @@ func c05Eval(cs C05Case) string {
 		sum := 0
 		for k, w := range want {
 			m, err := diam.ReadMessage(src, dict.Default)
+			if cs.Overstate > 0 && k == cs.OverIdx {
+				if err == nil {
+					return fmt.Sprintf("message %d carries an AVP that declares %d bytes more than the message holds, yet it was accepted (its payload was completed with bytes that are not part of the message)", k, cs.Overstate)
+				}
+				sum += len(w)
+				if c := consumed(); c != sum {
+					return fmt.Sprintf("after rejecting message %d: %d bytes consumed from the source, declared lengths sum to %d", k, c, sum)
+				}
+				continue
+			}
 			if err != nil {
 				return fmt.Sprintf("message %d of %d: ReadMessage failed: %v", k, len(want), err)
 			}
@@ -250,6 +273,19 @@ func c05Enum(ctx *ev.Ctx, fn func(C05Case)) string {
 			}
 		}
 	}
+	// an inner AVP overstating its length inside a message with a truthful length, after a longer
+	// message (whose bytes are still in any reused buffer) and before another one
+	for _, first := range []int{1016, 8, 1028} {
+		for _, mid := range []int{8, 200, 1016, 1028} {
+			for _, over := range []int{1, 4, 160, 600, 2000} {
+				for _, buffered := range []bool{false, true} {
+					for _, unit := range []int{0, 1, 7} {
+						emit(C05Case{Sizes: []int{first, mid, 8}, Buffered: buffered, Unit: unit, Trunc: -1, BadLen: -1, Overstate: over, OverIdx: 1})
+					}
+				}
+			}
+		}
+	}
 	// declared length 0..19 as the very first header
 	for l := 0; l < 20; l++ {
 		for _, buffered := range []bool{false, true} {
@@ -360,7 +396,7 @@ func c05Enum(ctx *ev.Ctx, fn func(C05Case)) string {
 			}
 		}
 	}
-	return "all sequences of <=3 messages over body sizes {0,8,1016,1024,1028,4100,70000}; read through a scripted io.Reader and through bufio.NewReader on top of it; all cut vectors with <=2 (thorough 3) cuts - every offset for streams <=200 bytes, otherwise every offset within +-3 (thorough: +-24 for single messages) of a message border, header/body border, 1 KiB and 4 KiB boundary (quick: three large messages or more than 120 candidate offsets: <=1 cut; thorough: 3 cuts where the candidate set has <=70 offsets and no 70 000-byte message is involved, otherwise 2, and 1 for three messages including the 70 000-byte one); uniform 1..40-byte readers; truncation at every such offset (plain, 7-byte reads, and with one earlier cut for short streams); a header declaring each length 0..19 followed by 40 more bytes after every sequence of <=2 messages and as the first header. Distinct by (sizes, cuts, unit, bufio, truncation, bad length)."
+	return "all sequences of <=3 messages over body sizes {0,8,1016,1024,1028,4100,70000}; read through a scripted io.Reader and through bufio.NewReader on top of it; all cut vectors with <=2 (thorough 3) cuts - every offset for streams <=200 bytes, otherwise every offset within +-3 (thorough: +-24 for single messages) of a message border, header/body border, 1 KiB and 4 KiB boundary (quick: three large messages or more than 120 candidate offsets: <=1 cut; thorough: 3 cuts where the candidate set has <=70 offsets and no 70 000-byte message is involved, otherwise 2, and 1 for three messages including the 70 000-byte one); uniform 1..40-byte readers; truncation at every such offset (plain, 7-byte reads, and with one earlier cut for short streams); a header declaring each length 0..19 followed by 40 more bytes after every sequence of <=2 messages and as the first header. and messages whose last AVP declares 1..2000 bytes more than the (truthful) message holds, between two other messages: rejected, following message still read at its offset. Distinct by (sizes, cuts, unit, bufio, truncation, bad length, overstatement)."
 }
 
 func runC05(ctx *ev.Ctx) {
